@@ -194,6 +194,8 @@ def gen_session(rng, tier, profile="mixed"):
     ctype0 = ctype
     if rng.random() < 0.15:
         ops.append("althost " + h(rng.choice(["127.0.0.1", "xmpp.other.example", "h"])))
+    if rng.random() < 0.3:
+        ops.append("onconnect 1")
     if rng.random() < 0.6:
         ops.append("uhandlers")
     if rng.random() < 0.3:
@@ -470,6 +472,8 @@ def gen_sm_session(rng):
         ops.append("uhandlers")
     if rng.random() < 0.5:
         ops.append("smcb")
+    if rng.random() < 0.5:
+        ops.append("onconnect 1")
     server = {"next_id": 0}
     first = True
     for cyc in range(rng.choice([1, 2, 2, 3, 3, 4, 6])):
